@@ -13,6 +13,7 @@ every program the monitor observes the real pandera code:
 * PARENTS   after defining / compiling / validating with any later class, the
             fingerprint (with function identity) of every earlier class's
             schema is unchanged;
+* ATTR      Model.<field> is the public column name (alias respected);
 * ORDER     a twin hierarchy built from the same program whose to_schema
             calls happen in another order (e.g. leaf first) gives the same
             schemas.
@@ -37,9 +38,12 @@ def new_run():
     return Run(
         PID, "exploration",
         "cases = generated DataFrameModel class trees (1-4 classes, depth <= 3, "
-        "pandas or polars; plain annotations, Optional, Field keywords, alias, "
+        "pandas or polars; plain annotations, Optional, Field keywords, alias "
+        "(str, int and the falsy labels 0 / 0.0 / False / ''), "
         "regex, Config options + extras-as-checks, @check / @dataframe_check / "
-        "@parser / @dataframe_parser methods, field / method / Config overrides) "
+        "@parser / @dataframe_parser methods, field overrides (new Field, "
+        "Field only, bare annotation only, renaming), method / Config overrides "
+        "(incl. switching an inherited option off)) "
         "x 2-3 generated frames per class x {eager, lazy}; non-trivial = the "
         "tree has >= 2 classes or a custom method or a Config; distinct = "
         "canonical hash of the program",
@@ -54,7 +58,13 @@ def new_run():
          "Config, Config.metadata, whether a regex-designated check applies "
          "to a non-string column name (match on str(name) or never: both "
          "accepted), the cls a custom method receives when inherited, what a "
-         "failing validate leaves on the model's cached schema (C05)"])
+         "failing validate leaves on the model's cached schema (C05), a class "
+         "whose field override renames a column that an inherited @check / "
+         "@parser still designates by the old name (pandera refuses it with "
+         "SchemaInitError; only the ancestors' schemas are watched)",
+         "not generated: multiple inheritance / mixins, fields named like a "
+         "DataFrameModel classmethod (example, empty, strategy ...), falsy "
+         "title / description / check names"])
 
 
 # ------------------------------------------------------------ fingerprints
@@ -350,17 +360,31 @@ def one_case(run, rng, backend=None, prog=None):
              sample={"program": prog} if ncls >= 2 else None)
     run.count(f"backend:{backend}")
     run.count(f"classes:{ncls}")
+    flats = [P.resolve(prog, i) for i in range(ncls)]
     for c in prog["classes"]:
         depth = len(P.chain(prog, prog["classes"].index(c)))
         run.count(f"class_depth:{depth}")
+        ci = prog["classes"].index(c)
+        inh_cols = {x["_attr"]: x for x in flats[c["parent"]]["columns"]} \
+            if c["parent"] is not None else {}
         for f in c["fields"]:
-            run.count("field:" + ("override" if any(
-                f["attr"] in {g["attr"] for g in prog["classes"][a]["fields"]}
-                for a in P.chain(prog, prog["classes"].index(c))[:-1]) else "new"))
+            prev = inh_cols.get(f["attr"])
+            run.count("field:" + ("override" if prev is not None else "new"))
+            if prev is not None:
+                if not f["has_field"]:
+                    run.count("field:override:bare-annotation")
+                    if prev["_has_field_opts"]:
+                        run.count("field:override:bare-annotation-drops-Field-options")
+                if not P.same_label(prev["name"], P._colname(f)):
+                    run.count("field:override:renames-column")
             if not f["ann"]:
                 run.count("field:field-only-override")
             if f["alias"] is not None:
                 run.count("field:alias" + (":int" if isinstance(f["alias"], int) else ""))
+                if not f["alias"]:
+                    run.count("field:alias:falsy")
+                    run.count("field:alias:falsy:" + backend)
+                    run.count("field:alias:falsy:%r" % (f["alias"],))
             if f["regex"]:
                 run.count("field:regex")
             if f["optional"]:
@@ -369,6 +393,8 @@ def one_case(run, rng, backend=None, prog=None):
                 run.count("field:bare-annotation")
             for k in f["checks"]:
                 run.count("field_kw:" + k["kind"])
+                if "flags" in k["args"]:
+                    run.count("field_kw:compiled-pattern")
             for k in ("nullable", "unique", "coerce"):
                 if f[k]:
                     run.count("field_kw:" + k)
@@ -390,12 +416,14 @@ def one_case(run, rng, backend=None, prog=None):
                 run.count("method:check:element_wise")
         if c["config"]:
             run.count("config:" + c["config"]["style"])
-            for k in c["config"]["options"]:
+            for k, v in c["config"]["options"].items():
                 run.count("config_opt:" + k)
+                if v is False and c["parent"] is not None and \
+                        flats[c["parent"]]["options"].get(k):
+                    run.count("config_opt:switched-off-in-subclass")
             for k in c["config"]["extras"]:
                 run.count("config_extra:" + k)
 
-    flats = [P.resolve(prog, i) for i in range(ncls)]
     # the input classes the repaired defects live in
     for i, fl in enumerate(flats):
         ccs = [cc for col in fl["columns"] for cc in col["custom_checks"]]
@@ -439,6 +467,35 @@ def one_case(run, rng, backend=None, prog=None):
     def on_defined(i, cls):
         h1.append(cls)
         check_unchanged(i - 1, ("defined", i))
+        # ATTR: "the alias is respected when using the class attribute to get
+        # the underlying column name" (docs, Aliases)
+        for col in flats[i]["columns"]:
+            try:
+                got = getattr(cls, col["_attr"])
+            except Exception as e:
+                got = e
+            run.count("class_attribute_checked")
+            if col["_alias"] is not None:
+                run.count("class_attribute_checked:aliased")
+            if not P.same_label(got, col["name"]):
+                run.violation("class-attribute-is-not-the-column-name",
+                              {**witness0, "class": i, "attr": col["_attr"],
+                               "got": repr(got), "expected": repr(col["name"])},
+                              None)
+        if flats[i]["dangling"]:
+            # a field override renamed a column that an inherited @check /
+            # @parser still designates by its old name: pandera refuses the
+            # class (SchemaInitError); the documentation does not say what
+            # such a class means -> exercised (the ancestors must not change),
+            # not judged
+            try:
+                cls.to_schema()
+                run.count("undecided:override-renamed-a-designated-column:compiles")
+            except Exception as e:
+                run.count("undecided:override-renamed-a-designated-column:"
+                          + type(e).__name__)
+            check_unchanged(i - 1, ("compiled", i))
+            return
         try:
             s = cls.to_schema()
         except Exception as e:
@@ -645,18 +702,27 @@ FLOORS_QUICK = {
     "validate_pair:pandas:eager": 1050, "validate_pair:pandas:lazy": 1050,
     "validate_pair:polars:eager": 690, "validate_pair:polars:lazy": 690,
     "verdict_equal": 3500, "validate_via_Model(df)": 750,
-    "field:override": 260, "field:alias": 490, "field:alias:int": 40,
-    "field:regex": 95,
-    "field:optional": 270, "method:checks:override": 170,
+    "field:override": 250, "field:alias": 490, "field:alias:int": 28,
+    "field:regex": 85,
+    "field:optional": 265, "method:checks:override": 170,
     "method:df_checks:override": 70, "method:parsers:override": 40,
     "method:check:by-fieldinfo": 100, "method:check:regex": 130,
-    "config:subclass": 60, "config:plain": 360,
+    "config:subclass": 60, "config:plain": 350,
     "outcome:ok": 1450, "outcome:SchemaError": 850,
     "outcome:SchemaErrors": 880, "custom_method_called:check": 4500,
     "class_depth:3": 180,
     "class:inherits-explicitly-named-check": 130,
     "class:check-designates-several-fieldinfos": 9,
-    "class:regex-check-and-non-str-column-name": 20,
+    "class:regex-check-and-non-str-column-name": 18,
+    # input classes added for the seeded mutations C16-mut2 / C16-mut3
+    "field:override:bare-annotation": 60,
+    "field:override:bare-annotation-drops-Field-options": 55,
+    "field:override:renames-column": 35,
+    "field:alias:falsy": 35, "field:alias:falsy:pandas": 25,
+    "field:alias:falsy:polars": 9,
+    "config_opt:switched-off-in-subclass": 15,
+    "class_attribute_checked": 2100, "class_attribute_checked:aliased": 880,
+    "field_kw:compiled-pattern": 10,
 }
 
 
